@@ -173,17 +173,20 @@ PROPS = {
                            'C06_idle_band: decision 0 yields only reaping; C06_up_never_taints; C06_triggers: starve / max-age only raise the decision to >= 1; C06_starve_iff: the starve trigger computed from the largest-pending / largest-available digests is exactly the documented condition (option on, some pending pod asks in CPU or memory for more than any untainted node has left, untainted < max_nodes), so C06_starve_scales_up: under that condition the decision is >= 1 in every band. C06_float_bands / C06_rne64_bands: for every rounding function obeying the standard model with u <= 2^-43 (binary64: 2^-53, proved for the executed rne64) the band decision is the one the EXACT utilisation max(100Rc/Cc, 100Rm/Cm) dictates whenever it is outside a relative neighbourhood of 2^-40 of a threshold; inside that neighbourhood either side is accepted (monitor likewise). '
                            'Tie: hist (requests placed at threshold*capacity/100 +-2) on taint/untaint/resize calls and the decision delta; band oracle on exact rationals over observed journals.',
                 level_note=LEVEL_NOTE),
-    'C07': dict(level='proof', module='EscProofs.P.C07',
+    'C07': dict(level='proof', module='EscProofs.P.Fresh',
                 # the last stream lets the credentials refresh fail (provider rebuilt, 5 s of real sleep each) before a scale-up
                 streams=dict(quick=[('scenario', ['-dir', '@ROOT/corpus/C07']), ('awsops', ['-n', 3000]), ('hist', ['-n', 400, '-scans', 10, '-focus', 'up']), ('hist', ['-n', 16, '-scans', 6, '-focus', 'up', '-slow'])],
                              thorough=[('scenario', ['-dir', '@ROOT/corpus/C07']), ('awsops', ['-n', 100000]), ('hist', ['-n', 20000, '-scans', 12, '-focus', 'up']), ('hist', ['-n', 160, '-scans', 6, '-focus', 'up', '-slow'])],
                              search=[('awsops', ['-n', 20000]), ('hist', ['-n', 1500, '-scans', 12, '-focus', 'up']), ('hist', ['-n', 32, '-scans', 6, '-focus', 'up', '-slow'])]),
                 aspects=['hist:untaints', 'hist:resize', 'hist:gets', 'hist:pre', 'cached-desired'], monitors=['C07'],
-                theorems=['Esc.P.C07_order', 'Esc.P.C07_remainder', 'Esc.P.C07_on_top', 'Esc.untaintLoop_spec', 'Esc.P.tryDelete_desired', 'Esc.orderBy_pairwise'],
+                theorems=['Esc.P.C07_order', 'Esc.P.C07_remainder', 'Esc.P.C07_on_top', 'Esc.untaintLoop_spec', 'Esc.P.tryDelete_desired', 'Esc.orderBy_pairwise',
+                          'Esc.P.runOnce_fresh', 'Esc.P.C07_fresh_history', 'Esc.P.C07_on_top_of_reported'],
                 technique='Lean 4 theorem (untaint loop attempts a newest-first prefix; count/remainder accounting of ScaleUp; exact SetDesiredCapacity value on the cached desired size, which follows accepted terminations) + differential correspondence incl. the provider cache after multi-node deletions + monitors',
                 level_text='C07_order: any tainted node not attempted is not strictly newer than an attempted one (all tie-breaks, all failing writes); C07_remainder: reported untaints <= N, the cloud is asked only if every tainted node was attempted, and then for the remainder N - untainted clamped to the bound, >= 1; '
                            'C07_on_top + tryDelete_desired: SetDesiredCapacity = cached desired + amount, the cached desired having been decremented once per accepted termination of the same scan. Tie: hist (up-focused: tainted nodes + high load + force removals) and awsops (cached desired after DeleteNodes); '
-                           'monitors: order, reuse, amount <= N - accepted untaints on top of the running desired size.',
+                           'runOnce_fresh / C07_fresh_history (EscProofs/P/Fresh.lean): in every scan of every history, with pairwise distinct cloud groups, the cached description a group scan starts from is an element of an answer to a DescribeAutoScalingGroups call of that same scan (refresh, rebuild or refresh after rebuild) whenever that answer describes the group - '
+                           '"current desired size" is what the cloud reported in this scan, never a value remembered from an earlier one (C07_on_top_of_reported). '
+                           'monitors: order, reuse, amount <= N - accepted untaints on top of the running desired size, judged against the cloud group as the simulated cloud holds it when the scan starts.',
                 level_note=LEVEL_NOTE),
     'C08': dict(level='proof', module='EscProofs.P.C08',
                 streams=dict(quick=[('scenario', ['-dir', '@ROOT/corpus/C08']), ('hist', ['-n', 400, '-scans', 10, '-focus', 'ties']), ('hist', ['-n', 200, '-scans', 10, '-focus', 'faults']), ('hist', ['-n', 200, '-scans', 12, '-focus', 'dry'])],
